@@ -150,9 +150,8 @@ def St.outSpace (s : St) : Nat :=
 
 def disableRetries : Op := fun s => { s with isRetriable := false }
 def disableRepeats : Op := fun s => { s with isRepeatable := false }
-/-- ModXact::disableBypass(reason, includingGroupBypass) -/
-def disableBypass (group : Bool) : Op := fun s =>
-  { s with canStartBypass := false, protectGroupBypass := if group then false else s.protectGroupBypass }
+/-- disableRepeats(reason); disableBypass(reason, true) -/
+def noBypassNoRepeat : Op := fun s => { s with isRepeatable := false, canStartBypass := false, protectGroupBypass := false }
 
 /-- State::doneConsumingVirgin() -/
 def St.doneConsumingVirgin (s : St) : Bool :=
@@ -162,53 +161,54 @@ def St.doneConsumingVirgin (s : St) : Bool :=
 def checkConsuming : Op := fun s =>
   if !s.consuming || !s.doneConsumingVirgin then s else { s with consuming := false }
 
+/-- the offset up to which virginConsume() may release buffered virgin bytes -/
+def St.consumeLimit (s : St) : Nat :=
+  let o1 := if s.vWriting.st == .active then min s.vWriting.start s.put else s.put
+  if s.vSending.st == .active then min s.vSending.start o1 else o1
+
 /-- ModXact::virginConsume() -/
 def virginConsume : Op := fun s =>
   if !s.consuming then s
   else if s.isRetriable then s
   else if (s.isRepeatable || s.canStartBypass || s.protectGroupBypass) && s.potentialSpace > 0 then s
-  else
-    let e := s.put
-    let o1 := if s.vWriting.st == .active then min s.vWriting.start e else e
-    let o2 := if s.vSending.st == .active then min s.vSending.start o1 else o1
-    if s.consumed ≤ o2 then
-      let size := o2 - s.consumed
-      if size > 0 then
-        { s with buf := s.buf.drop size, consumed := s.consumed + size, isRepeatable := false, canStartBypass := false, protectGroupBypass := false }
-      else s
-    else { s with thrown := true }
+  else if s.consumed ≤ s.consumeLimit then
+    let size := s.consumeLimit - s.consumed
+    if size > 0 then
+      { s with buf := s.buf.drop size, consumed := s.consumed + size, isRepeatable := false, canStartBypass := false, protectGroupBypass := false }
+    else s
+  else { s with thrown := true }      -- Must(virginConsumed <= offset && offset <= end)
 
 /-- ModXact::stopWriting(nicely) -/
-def stopWriting (nicely : Bool) : Op := fun s =>
-  if s.writing == .reallyDone then s
-  else if s.writerBusy && nicely then checkConsuming { s with writing := .almostDone }
-  else
-    let s1 := if s.writerBusy then { s with ignoreLastWrite := true } else s
-    let s2 := if s1.vWriting.st == .active then virginConsume { s1 with vWriting := { s1.vWriting with st := .disabled } } else s1
-    if s2.thrown then s2 else checkConsuming { s2 with writing := .reallyDone }
+def stopWriting (nicely : Bool) : Op :=
+  cond (fun s => s.writing == .reallyDone) skip <|
+  cond (fun s => s.writerBusy && nicely) ((fun s => { s with writing := .almostDone }) ;; checkConsuming) <|
+  whenOp (fun s => s.writerBusy) (fun s => { s with ignoreLastWrite := true }) ;;
+  whenOp (fun s => s.vWriting.st == .active) ((fun s => { s with vWriting := { s.vWriting with st := .disabled } }) ;; virginConsume) ;;
+  (fun s => { s with writing := .reallyDone }) ;;
+  checkConsuming
 
 /-- ModXact::stopBackup() -/
-def stopBackup : Op := fun s =>
-  if s.vSending.st != .active then s
-  else virginConsume { s with vSending := { s.vSending with st := .disabled } }
+def stopBackup : Op :=
+  whenOp (fun s => s.vSending.st == .active) ((fun s => { s with vSending := { s.vSending with st := .disabled } }) ;; virginConsume)
 
-/-- ModXact::stopSending(nicely): ends the adapted pipe nicely only when nothing is owed -/
-def stopSending (nicely : Bool) : Op := fun s =>
-  if s.sending == .done then s
-  else if s.sending != .undecided then
-    let s1 := if s.outSt == .isOpen then
-        let leftDebts := match s.outSize with | some n => decide (s.out.length < n) | none => false
-        { s with vSending := { s.vSending with st := .disabled }, outSt := if nicely && !leftDebts then .endedOk else .aborted }
-      else s
-    checkConsuming { s1 with sending := .done }
-  else if s.outSt != .noPipe then { s with thrown := true }
-  else checkConsuming { s with sending := .done }
+/-- whether the adapted pipe still owes bytes (BodyPipe::needsMoreData()) -/
+def St.leftDebts (s : St) : Bool := match s.outSize with | some n => decide (s.out.length < n) | none => false
+
+/-- stopProducingFor(adapted.body_pipe, nicely && !leftDebts) and the end of sending -/
+def endPipe (nicely : Bool) : Op := fun s =>
+  { s with vSending := { s.vSending with st := .disabled }, outSt := if nicely && !s.leftDebts then .endedOk else .aborted, sending := .done }
+
+/-- ModXact::stopSending(nicely) -/
+def stopSending (nicely : Bool) : Op :=
+  cond (fun s => s.sending == .done) skip <|
+  cond (fun s => s.sending != .undecided)
+    (cond (fun s => s.outSt == .isOpen) (endPipe nicely) (fun s => { s with sending := .done }) ;; checkConsuming)
+    (must (fun s => s.outSt == .noPipe) ;; (fun s => { s with sending := .done }) ;; checkConsuming)
 
 /-- ModXact::stopParsing(checkUnparsedData) -/
-def stopParsing (check : Bool) : Op := fun s =>
-  if s.parsing == .done then s
-  else if check && !s.pending.isEmpty then { s with thrown := true }
-  else { s with parsing := .done }
+def stopParsing (check : Bool) : Op :=
+  cond (fun s => s.parsing == .done) skip <|
+  must (fun s => !(check && !s.pending.isEmpty)) ;; (fun s => { s with parsing := .done })
 
 /-! ### writing the request -/
 
@@ -226,142 +226,151 @@ def pvWrote (size : Nat) (eof : Bool) : Op := fun s =>
 def St.pvDone (s : St) : Bool := s.preview.st == .done || s.preview.st == .ieof
 def St.pvDebt (s : St) : Nat := if s.pvDone then 0 else s.preview.ad - s.preview.written
 
+/-- the bookkeeping of writeSomeBody() after the chunk was taken: preview accounting, last-chunk, scheduleWrite -/
+def wroteChunk (chunk : Nat) : Op :=
+  whenOp (fun s => s.writing == .preview) (fun s => pvWrote chunk (s.endReached s.vWriting) s) ;;
+  whenOp (fun s => decide (chunk > 0) || s.endReached s.vWriting || (s.writing == .preview && s.pvDone)) (fun s => { s with writerBusy := true })
+
 /-- ModXact::writeSomeBody(label, size) -/
-def writeSomeBody (size : Nat) : Op := fun s =>
-  if s.writerBusy || !decide (s.writing.rank < Writing.almostDone.rank) || !s.consuming || s.vWriting.st != .active then { s with thrown := true }
-  else if !(decide (s.consumed ≤ s.vWriting.start) && decide (s.vWriting.start ≤ s.put)) then { s with thrown := true }
-  else
-    let writable := s.put - s.vWriting.start
-    let chunk := min writable size
-    let s1 := if chunk > 0 then virginConsume { s with vWriting := { s.vWriting with start := s.vWriting.start + chunk } } else s
-    if s1.thrown then s1 else
-    let wroteEof := s1.endReached s1.vWriting
-    let s2 := if s1.writing == .preview then pvWrote chunk wroteEof s1 else s1
-    if s2.thrown then s2 else
-    let last := wroteEof || (s2.writing == .preview && s2.pvDone)
-    if chunk > 0 || last then { s2 with writerBusy := true } else s2
+def writeSomeBody (size : St → Nat) : Op :=
+  must (fun s => !s.writerBusy && decide (s.writing.rank < Writing.almostDone.rank) && s.consuming && s.vWriting.st == .active) ;;
+  must (fun s => decide (s.consumed ≤ s.vWriting.start) && decide (s.vWriting.start ≤ s.put)) ;;     -- virginContentSize()
+  fun s =>
+    let chunk := min (s.put - s.vWriting.start) (size s)
+    ((whenOp (fun _ => chunk > 0) ((fun s => { s with vWriting := { s.vWriting with start := s.vWriting.start + chunk } }) ;; virginConsume)) ;;
+     wroteChunk chunk) s
 
 /-- ModXact::decideWritingAfterPreview() -/
-def decideWritingAfterPreview : Op := fun s =>
-  if s.preview.st == .ieof then stopWriting true s
-  else if s.parsing == .icapHeader then { s with writing := .paused }
-  else stopWriting true s
+def decideWritingAfterPreview : Op :=
+  cond (fun s => s.preview.st == .ieof) (stopWriting true) <|
+  cond (fun s => s.parsing == .icapHeader) (fun s => { s with writing := .paused }) (stopWriting true)
 
 /-- ModXact::writePreviewBody() -/
 def writePreviewBody : Op :=
   must (fun s => s.writing == .preview && s.consuming) ;;
-  (fun s => writeSomeBody (min s.pvDebt s.have) s) ;;
+  writeSomeBody (fun s => min s.pvDebt s.have) ;;
   whenOp (fun s => s.pvDone) decideWritingAfterPreview
 
 /-- ModXact::writePrimeBody() -/
 def writePrimeBody : Op :=
   must (fun s => s.writing == .prime && s.vWriting.st == .active) ;;
-  (fun s => writeSomeBody s.have s) ;;
+  writeSomeBody (fun s => s.have) ;;
   whenOp (fun s => s.endReached s.vWriting) (stopWriting true)
 
 /-- ModXact::writeMore() -/
-def writeMore : Op := fun s =>
-  if s.writerBusy then s
-  else match s.writing with
-    | .almostDone => stopWriting false s
-    | .preview => writePreviewBody s
-    | .prime => writePrimeBody s
-    | _ => s
+def writeMore : Op :=
+  cond (fun s => s.writerBusy) skip <|
+  cond (fun s => s.writing == .almostDone) (stopWriting false) <|
+  cond (fun s => s.writing == .preview) writePreviewBody <|
+  cond (fun s => s.writing == .prime) writePrimeBody skip
 
 /-! ### sending -/
 
+/-- how many bytes echoMore() hands to the adapted pipe (BodyPipe::putMoreData()) -/
+def St.echoSize (s : St) : Nat :=
+  let sizeMax := s.put - s.vSending.start
+  let owed := match s.outSize with | some n => n - s.out.length | none => sizeMax
+  min (min sizeMax owed) s.outSpace
+
+/-- the copy in echoMore(): bytes of the virgin pipe buffer go into the adapted pipe -/
+def echoCopy : Op := fun s =>
+  { s with out := s.out ++ (s.buf.drop (s.vSending.start - s.consumed)).take s.echoSize,
+           vSending := { s.vSending with start := s.vSending.start + s.echoSize },
+           isRepeatable := false, canStartBypass := false, protectGroupBypass := false }
+
 /-- ModXact::echoMore() -/
-def echoMore : Op := fun s =>
-  if s.sending != .virgin || s.outSt != .isOpen || s.vSending.st != .active then { s with thrown := true }
-  else if !(decide (s.consumed ≤ s.vSending.start) && decide (s.vSending.start ≤ s.put)) then { s with thrown := true }   -- virginContentSize()
-  else
-    let sizeMax := s.put - s.vSending.start
-    let owed := match s.outSize with | some n => n - s.out.length | none => sizeMax
-    let size := min (min sizeMax owed) s.outSpace
-    let s1 := if sizeMax > 0 then
-        let data := (s.buf.drop (s.vSending.start - s.consumed)).take size
-        virginConsume { s with out := s.out ++ data, vSending := { s.vSending with start := s.vSending.start + size },
-                                isRepeatable := false, canStartBypass := false, protectGroupBypass := false }
-      else s
-    if s1.thrown then s1
-    else if s1.endReached s1.vSending then stopSending true s1 else s1
+def echoMore : Op :=
+  must (fun s => s.sending == .virgin && s.outSt == .isOpen && s.vSending.st == .active) ;;
+  must (fun s => decide (s.consumed ≤ s.vSending.start) && decide (s.vSending.start ≤ s.put)) ;;   -- virginContentSize()
+  whenOp (fun s => s.put - s.vSending.start > 0) (echoCopy ;; virginConsume) ;;
+  whenOp (fun s => s.endReached s.vSending) (stopSending true)
+
+/-- sendAnswer(Answer::Forward(adapted.header)); a nil header makes Iterator::handleAdaptedHeader() fail: the initiator sees an abort -/
+def sendAnswer : Op := fun s =>
+  if s.answer != .none then s
+  else if s.head == .none then { s with answer := .aborted } else { s with answer := .forward }
 
 /-- ModXact::startSending() -/
-def startSending : Op := fun s =>
-  let s1 := { s with isRepeatable := false, canStartBypass := false, protectGroupBypass := false,
-                     answer := if s.answer == .none then .forward else s.answer }
-  if s1.sending == .virgin then echoMore s1
-  else if s1.head == .none then { s1 with answer := if s.answer == .none then .aborted else s.answer, thrown := true }
-       -- Forward(nullptr): Iterator::handleAdaptedHeader() Must(aMsg) fails, the initiator sees an abort; updateSources(): Must(adapted.header)
-  else s1
+def startSending : Op :=
+  noBypassNoRepeat ;; sendAnswer ;;
+  cond (fun s => s.sending == .virgin) echoMore (must (fun s => s.head != .none))     -- updateSources(): Must(adapted.header)
 
 /-- VirginBodyAct::plan() -/
-def planSending : Op := fun s =>
-  if s.vSending.st == .disabled || s.vSending.start != 0 then { s with thrown := true }
-  else { s with vSending := { s.vSending with st := .active } }
+def planSending : Op :=
+  must (fun s => s.vSending.st != .disabled && s.vSending.start == 0) ;;
+  fun s => { s with vSending := { s.vSending with st := .active } }
+
+/-- adapted.setHeader(clone of the virgin head) -/
+def allocClone : Op := fun s => { s with head := .virginClone }
+
+/-- makeAdaptedBodyPipe() for the echo, with the virgin body size when known -/
+def openEchoPipe : Op := fun s =>
+  { s with sending := .virgin, outSt := .isOpen, outSize := if s.cfg.sizeKnown then some s.total else none }
 
 /-- ModXact::prepEchoing() -/
-def prepEchoing : Op := fun s =>
-  let s0 := { s with isRepeatable := false, canStartBypass := false, protectGroupBypass := false }
-  if s0.head != .none then { s0 with thrown := true }           -- Must(!adapted.header)
-  else
-    let s1 := { s0 with head := .virginClone }
-    if s1.cfg.hasBody then
-      let s2 := if s1.vSending.st != .active then
-          (if IcapConsts.planChecksConsumed && s1.consumed != 0 then { s1 with thrown := true }
-           else if IcapConsts.replanAfterStopBackup && s1.vSending.st == .disabled && s1.consumed == 0
-           then planSending { s1 with vSending := {} } else planSending s1)
-        else s1
-      if s2.thrown then s2 else
-      let s3 := checkConsuming { s2 with sending := .virgin }
-      if s3.outSt != .noPipe then { s3 with thrown := true }    -- makeAdaptedBodyPipe(): Must(!adapted.body_pipe)
-      else { s3 with outSt := .isOpen, outSize := if s3.cfg.sizeKnown then some s3.total else none }
-    else stopSending true s1
+def prepEchoing : Op :=
+  noBypassNoRepeat ;;
+  must (fun s => s.head == .none) ;;            -- Must(!adapted.header)
+  allocClone ;;
+  cond (fun s => s.cfg.hasBody)
+    (whenOp (fun s => s.vSending.st != .active)
+       (must (fun s => !(IcapConsts.planChecksConsumed && s.consumed != 0)) ;;
+        whenOp (fun s => IcapConsts.replanAfterStopBackup && s.vSending.st == .disabled && s.consumed == 0)
+          (fun s => { s with vSending := {} }) ;;
+        planSending) ;;
+     must (fun s => s.outSt == .noPipe) ;;       -- makeAdaptedBodyPipe(): Must(!adapted.body_pipe)
+     openEchoPipe ;; checkConsuming)
+    (stopSending true)
+
+/-- the state change of prepPartialBodyEchoing(pos) -/
+def startPartEcho (pos : Nat) : Op := fun s =>
+  { s with vSending := { s.vSending with start := s.vSending.start + pos }, sending := .virgin, uob := some pos,
+           outSize := if s.cfg.sizeKnown then some (s.out.length + (s.total - pos)) else s.outSize }
 
 /-- ModXact::prepPartialBodyEchoing(pos) -/
-def prepPartialBodyEchoing (pos : Nat) : Op := fun s =>
-  if s.vSending.st != .active || !s.cfg.hasBody then { s with thrown := true }
-  else if !(decide (pos ≤ s.put)) then { s with thrown := true }
-  else
-    let s1 := checkConsuming { s with vSending := { s.vSending with start := s.vSending.start + pos }, sending := .virgin, uob := some pos }
-    let s2 : St := if s1.cfg.sizeKnown then
-        (match s1.outSize with
-         | some n => if n == s1.out.length + (s1.total - pos) then s1 else { s1 with thrown := true }
-         | none => { s1 with outSize := some (s1.out.length + (s1.total - pos)) })
-      else s1
-    if s2.thrown then s2 else echoMore s2
+def prepPartialBodyEchoing (pos : Nat) : Op :=
+  must (fun s => s.vSending.st == .active && s.cfg.hasBody) ;;
+  must (fun s => decide (pos ≤ s.put)) ;;
+  must (fun s => !s.cfg.sizeKnown || (match s.outSize with | some n => n == s.out.length + (s.total - pos) | none => true)) ;;   -- expectProductionEndAfter()
+  startPartEcho pos ;; checkConsuming ;; echoMore
 
 /-! ### parsing the reply -/
 
 /-- ModXact::decideOnParsingBody() -/
-def decideOnParsingBody : Op := fun s =>
-  if s.gotBody then
-    if s.head == .none then { s with parsing := .body, thrown := true, crashed := true }   -- makeAdaptedBodyPipe() dereferences adapted.header
-    else if s.outSt != .noPipe then { s with parsing := .body, thrown := true }             -- Must(!adapted.body_pipe)
-    else if s.sending != .adapted then { s with parsing := .body, outSt := .isOpen, thrown := true }
-    else { s with parsing := .body, outSt := .isOpen }
-  else
-    let s1 := if s.trailerExpected then { s with parsing := .icapTrailer } else stopParsing true s
-    if s1.thrown then s1 else stopSending true s1
+def decideOnParsingBody : Op :=
+  cond (fun s => s.gotBody)
+    ((fun s => { s with parsing := .body }) ;;
+     cond (fun s => s.head == .none) (fun s => { s with thrown := true, crashed := true })      -- makeAdaptedBodyPipe() dereferences adapted.header
+       (must (fun s => s.outSt == .noPipe) ;;                                                -- Must(!adapted.body_pipe)
+        (fun s => { s with outSt := .isOpen }) ;;
+        must (fun s => s.sending == .adapted)))
+    (cond (fun s => s.trailerExpected) (fun s => { s with parsing := .icapTrailer }) (stopParsing true) ;; stopSending true)
 
-/-- ModXact::parseBody(): the chunked parser hands over what fits into the adapted pipe -/
-def parseBody : Op := fun s =>
-  if s.parsing != .body || s.outSt == .noPipe then { s with thrown := true }
-  else
-    let n := min s.pending.length (if s.outSt == .isOpen then s.outSpace else 0)
-    let s1 := { s with out := s.out ++ s.pending.take n, pending := s.pending.drop n }
-    let s2 := if s1.out.length - s1.outTaken > 0 then { s1 with isRepeatable := false, canStartBypass := false, protectGroupBypass := false } else s1
-    if s2.pending.isEmpty then
-      match s2.lastSeen with
+/-- how many pending bytes fit into the adapted pipe now -/
+def St.fitSize (s : St) : Nat := min s.pending.length (if s.outSt == .isOpen then s.outSpace else 0)
+
+/-- the chunked parser hands over what fits; the first adapted byte ends bypass and repeats -/
+def moveBody : Op := fun s =>
+  let n := s.fitSize
+  let used := decide ((s.out ++ s.pending.take n).length - s.outTaken > 0)
+  { s with out := s.out ++ s.pending.take n, pending := s.pending.drop n,
+           isRepeatable := if used then false else s.isRepeatable, canStartBypass := if used then false else s.canStartBypass,
+           protectGroupBypass := if used then false else s.protectGroupBypass }
+
+def setParsingAfterBody : Op := cond (fun s => s.trailerExpected) (fun s => { s with parsing := .icapTrailer }) (stopParsing true)
+
+/-- ModXact::parseBody() -/
+def parseBody : Op :=
+  must (fun s => s.parsing == .body && s.outSt != .noPipe) ;;
+  moveBody ;;
+  cond (fun s => s.pending.isEmpty)
+    (fun s => match s.lastSeen with
       | some u =>
-        let s3 := match s2.readyForUob, u with
-          | true, some pos => prepPartialBodyEchoing pos s2
-          | _, _ => stopSending true s2
-        if s3.thrown then s3
-        else if s3.trailerExpected then { s3 with parsing := .icapTrailer } else stopParsing true s3
-      | none => if s2.commEof then { s2 with thrown := true } else s2      -- needsMoreData: Must(mayReadMore())
-    else if s2.sending == .done || s2.out.length - s2.outTaken == 0 then { s2 with thrown := true }   -- needsMoreSpace
-    else s2
+        ((match s.readyForUob, u with
+          | true, some pos => prepPartialBodyEchoing pos
+          | _, _ => stopSending true) ;; setParsingAfterBody) s
+      | none => must (fun s => !s.commEof) s)                                       -- needsMoreData: Must(mayReadMore())
+    (must (fun s => s.sending != .done && s.out.length - s.outTaken != 0))           -- needsMoreSpace
 
 /-- the tail of ModXact::parseHeaders(): all headers parsed -/
 def headersDone : Op := startSending
@@ -379,7 +388,7 @@ def handle100Continue : Op :=
 
 /-- ModXact::handle200Ok() -/
 def handle200Ok : Op :=
-  (fun s => { s with parsing := .httpHeader, sending := .adapted }) ;; stopBackup ;; checkConsuming
+  (fun s => { s with parsing := .httpHeader, sending := .adapted, readyForUob := s.readyForUob }) ;; stopBackup ;; checkConsuming
 
 /-- ModXact::handle204NoContent() -/
 def handle204NoContent : Op := stopParsing true ;; prepEchoing
@@ -406,11 +415,14 @@ def parseIcapHead (status : Nat) (hdr body trailer : Bool) : Op :=
    | _ => handleUnknownScode) ;;
   whenOp (fun s => s.writing == .paused) (stopWriting true)
 
+/-- maybeAllocateHttpMsg() -/
+def allocAdapted : Op := fun s => if s.head == .none then { s with head := .adapted } else s
+
 /-- ModXact::parseHeaders() on a complete ICAP head; the HTTP head parse is attempted at once (maybeAllocateHttpMsg) -/
 def parseHeadersIcap (status : Nat) (hdr body trailer : Bool) : Op :=
   parseIcapHead status hdr body trailer ;;
   cond (fun s => s.parsing == .httpHeader)
-    (cond (fun _ => hdr) (fun s => if s.head == .none then { s with head := .adapted } else s) parseHttpHeadComplete)
+    (cond (fun _ => hdr) allocAdapted parseHttpHeadComplete)
     (whenOp (fun s => s.parsing != .icapHeader) headersDone)
 
 /-! ### exceptions and the end of the job -/
@@ -425,12 +437,14 @@ def swanSong : Op := fun s =>
   { s2 with stopped := true, haveConn := false, readerOn := false, writerBusy := false,
             answer := if s2.answer == .none then .aborted else s2.answer }
 
+/-- a half-received adapted head is dropped (only in source variants that do so) -/
+def dropHead : Op := fun s => { s with head := .none, sending := .undecided }
+
 /-- ModXact::bypassFailure() -/
 def bypassFailure : Op :=
   (fun s => { s with canStartBypass := false, bypassed := true }) ;;
   must (fun s => !s.isRetriable) ;;
-  whenOp (fun s => IcapConsts.dropPartialAdaptedHead && s.head == .adapted && s.answer == .none && s.outSt == .noPipe)
-    (fun s => { s with head := .none, sending := .undecided }) ;;
+  whenOp (fun s => IcapConsts.dropPartialAdaptedHead && s.head == .adapted && s.answer == .none && s.outSt == .noPipe && s.sending == .adapted) dropHead ;;
   prepEchoing ;; startSending ;; stopParsing false ;; stopWriting true ;;
   (fun s => { s with readerOn := false })
 
@@ -478,16 +492,13 @@ inductive Ev
   | initiatorAbort
   deriving Repr
 
-/-- ModXact::makeAllowHeader() + the preview part of makeRequestHeaders() -/
-def makeAllowHeader : Op := fun s =>
-  let canBackupAll := !s.cfg.hasBody || (s.cfg.sizeKnown && decide (s.total < s.cfg.backupLimit))
-  let allow204in := s.preview.st != .disabled
-  let allow204out := canBackupAll
-  let any206 := s.cfg.allow206 && s.cfg.hasBody
-  let allow206in := any206 && s.preview.st != .disabled
-  let allow206out := any206 && canBackupAll
-  let s1 := { s with allowedPostview204 := allow204out, allowedPreview206 := allow206in, allowedPostview206 := allow206out }
-  if (allow204in || allow204out || allow206in || allow206out) && s.cfg.hasBody then planSending s1 else s1
+/-- ModXact::makeAllowHeader(): which 204/206 replies we promise to honour; plan the backup of the virgin body -/
+def makeAllowHeader : Op :=
+  (fun s =>
+    let canBackupAll := !s.cfg.hasBody || (s.cfg.sizeKnown && decide (s.total < s.cfg.backupLimit))
+    let any206 := s.cfg.allow206 && s.cfg.hasBody
+    { s with allowedPostview204 := canBackupAll, allowedPreview206 := any206 && s.preview.st != .disabled, allowedPostview206 := any206 && canBackupAll }) ;;
+  whenOp (fun s => (s.preview.st != .disabled || s.allowedPostview204 || s.allowedPreview206 || s.allowedPostview206) && s.cfg.hasBody) planSending
 
 /-- Xaction::useIcapConnection() -> ModXact::startShoveling() -/
 def startShoveling : Op :=
@@ -498,71 +509,71 @@ def startShoveling : Op :=
   (fun s => { s with writing := .headers, writerBusy := true })
 
 /-- ModXact::handleCommWroteHeaders() -/
-def handleCommWroteHeaders : Op := fun s =>
-  if s.preview.st != .disabled then
-    (if s.pvDone then (decideWritingAfterPreview ;; writeMore) s else writeMore { s with writing := .preview })
-  else if s.cfg.hasBody then writeMore { s with writing := .prime }
-  else stopWriting true s
+def handleCommWroteHeaders : Op :=
+  cond (fun s => s.preview.st != .disabled)
+    (cond (fun s => s.pvDone) (decideWritingAfterPreview ;; writeMore) ((fun s => { s with writing := .preview }) ;; writeMore))
+    (cond (fun s => s.cfg.hasBody) ((fun s => { s with writing := .prime }) ;; writeMore) (stopWriting true))
 
 /-- Xaction::noteCommWrote() -/
-def noteCommWrote : Op := fun s =>
-  let s1 := { s with writerBusy := false }
-  if s1.ignoreLastWrite then { s1 with ignoreLastWrite := false }
-  else if s1.writing == .headers then handleCommWroteHeaders s1 else writeMore s1
+def noteCommWrote : Op :=
+  (fun s => { s with writerBusy := false }) ;;
+  cond (fun s => s.ignoreLastWrite) (fun s => { s with ignoreLastWrite := false })
+    (cond (fun s => s.writing == .headers) handleCommWroteHeaders writeMore)
 
-/-- the producer of the virgin body appends up to n bytes; ModXact::noteMoreBodyDataAvailable() -/
+/-- how many of n offered bytes the virgin pipe takes (BodyPipe::putMoreData()) -/
+def St.produceSize (s : St) (n : Nat) : Nat := min (min n (s.total - s.put)) s.potentialSpace
+
+def produceCore (k : Nat) : Op := fun s => { s with buf := s.buf ++ (s.v.drop s.put).take k, put := s.put + k }
+
+/-- ModXact::noteMoreBodyDataAvailable() / noteBodyProductionEnded() -/
+def noteVirginNews : Op := writeMore ;; whenOp (fun s => s.sending == .virgin) echoMore
+
+/-- the producer of the virgin body appends up to n bytes -/
 def produce (n : Nat) : Op := fun s =>
-  let k := min (min n (s.total - s.put)) s.potentialSpace
-  let s1 := { s with buf := s.buf ++ (s.v.drop s.put).take k, put := s.put + k }
-  if !s1.consuming || k == 0 then s1
-  else (writeMore ;; whenOp (fun s => s.sending == .virgin) echoMore) s1
+  (produceCore (s.produceSize n) ;; whenOp (fun t => t.consuming && s.produceSize n != 0) noteVirginNews) s
 
-/-- ModXact::noteBodyProductionEnded() -/
-def prodEnd : Op := fun s =>
-  if s.put != s.total || s.prodEnded then s
-  else
-    let s1 := { s with prodEnded := true }
-    if !s1.consuming then s1 else (writeMore ;; whenOp (fun s => s.sending == .virgin) echoMore) s1
+/-- the producer is done (at the end of the body) -/
+def prodEnd : Op :=
+  whenOp (fun s => s.put == s.total && !s.prodEnded) ((fun s => { s with prodEnded := true }) ;; whenOp (fun s => s.consuming) noteVirginNews)
 
 /-- Xaction::noteCommRead() with data, then ModXact::handleCommRead(): parseMore(); readMore() -/
-def noteRead (parse : Op) : Op := fun s =>
-  (parse ;; readMore) { s with readerOn := false, bytesRead := true, isRetriable := false }
+def noteRead (parse : Op) : Op :=
+  (fun s => { s with readerOn := false, bytesRead := true, isRetriable := false }) ;; parse ;; readMore
 
 def parseMoreBody : Op := whenOp (fun s => s.parsing == .body) parseBody
 
+def recvBody (bs : Bytes) : Op := fun s => { s with recv := s.recv ++ bs, pending := s.pending ++ bs }
+def recvLast (u : Option Nat) : Op := fun s => { s with lastSeen := some u }
+def takeOut (n : Nat) : Op := fun s => { s with outTaken := min s.out.length (s.outTaken + n) }
+
 /-- the handler an event runs (the event is ignored when it cannot occur in this state) -/
 def handler : Ev → Op
-  | .connected => fun s => if s.writing == .connect && !s.haveConn then startShoveling s else s
-  | .wrote => fun s => if s.writerBusy && s.haveConn then noteCommWrote s else s
-  | .produce n => fun s => if s.prodEnded then s else produce n s
+  | .connected => whenOp (fun s => s.writing == .connect && !s.haveConn) startShoveling
+  | .wrote => whenOp (fun s => s.writerBusy && s.haveConn) noteCommWrote
+  | .produce n => whenOp (fun s => !s.prodEnded) (produce n)
   | .prodEnd => prodEnd
-  | .rdIcap st h b t => fun s => if s.readerOn && s.parsing == .icapHeader then noteRead (parseHeadersIcap st h b t ;; parseMoreBody) s else s
-  | .rdHttpHead => fun s => if s.readerOn && s.parsing == .httpHeader && s.head == .adapted then noteRead (parseHttpHeadComplete ;; parseMoreBody) s else s
-  | .rdBody bs => fun s => if s.readerOn && s.parsing == .body && s.lastSeen.isNone then
-      noteRead parseBody { s with recv := s.recv ++ bs, pending := s.pending ++ bs } else s
-  | .rdLast u => fun s => if s.readerOn && s.parsing == .body && s.lastSeen.isNone then noteRead parseBody { s with lastSeen := some u } else s
-  | .rdTrailer => fun s => if s.readerOn && s.parsing == .icapTrailer then noteRead (stopParsing true) s else s
-  | .rdEof => fun s =>
-      if !s.readerOn then s
-      else
-        let s1 := { s with readerOn := false, commEof := true }
-        if !s1.bytesRead && s1.isRetriable then swanSong s1          -- pconn race: mustStop
-        else if s1.parsing == .body && s1.lastSeen.isSome then parseBody s1
-        else { s1 with thrown := true }                               -- a head/body/trailer cut short: Must(parsed || !error), Must(mayReadMore())
-  | .rdError => fun s => if !s.readerOn then s else
-      if IcapConsts.readErrorThrows then { s with readerOn := false, thrown := true } else swanSong { s with readerOn := false }
-  | .rdBad => fun s => if !s.readerOn || s.parsing == .done then s else { s with readerOn := false, bytesRead := true, isRetriable := false, thrown := true }
-  | .space n => fun s =>
-      if s.outSt != .isOpen then s
-      else
-        let s1 := { s with outTaken := min s.out.length (s.outTaken + n) }
-        if s1.sending == .virgin then echoMore s1
-        else if s1.sending == .adapted then parseMoreBody s1
-        else if s1.sending == .undecided then s1 else { s1 with thrown := true }
-  | .consumerAbort => fun s => if s.outSt != .isOpen then s else swanSong s
-  | .timeout => fun s => if !s.haveConn || (!s.readerOn && !s.writerBusy) then s else { s with haveConn := false, readerOn := false, thrown := true }
-  | .closed => fun s => if !s.haveConn then s else swanSong { s with haveConn := false }
-  | .initiatorAbort => fun s => if s.answer != .none then s else swanSong { s with answer := .aborted }
+  | .rdIcap st h b t => whenOp (fun s => s.readerOn && s.parsing == .icapHeader) (noteRead (parseHeadersIcap st h b t ;; parseMoreBody))
+  | .rdHttpHead => whenOp (fun s => s.readerOn && s.parsing == .httpHeader && s.head == .adapted) (noteRead (parseHttpHeadComplete ;; parseMoreBody))
+  | .rdBody bs => whenOp (fun s => s.readerOn && s.parsing == .body && s.lastSeen.isNone) (recvBody bs ;; noteRead parseBody)
+  | .rdLast u => whenOp (fun s => s.readerOn && s.parsing == .body && s.lastSeen.isNone) (recvLast u ;; noteRead parseBody)
+  | .rdTrailer => whenOp (fun s => s.readerOn && s.parsing == .icapTrailer) (noteRead (stopParsing true))
+  | .rdEof => whenOp (fun s => s.readerOn)
+      ((fun s => { s with readerOn := false, commEof := true }) ;;
+       cond (fun s => !s.bytesRead && s.isRetriable) swanSong                      -- pconn race: mustStop
+         (cond (fun s => s.parsing == .body && s.lastSeen.isSome) parseBody
+            throwNow))                                                             -- a head/body/trailer cut short: Must(parsed || !error), Must(mayReadMore())
+  | .rdError => whenOp (fun s => s.readerOn)
+      ((fun s => { s with readerOn := false }) ;; cond (fun _ => IcapConsts.readErrorThrows) throwNow swanSong)
+  | .rdBad => whenOp (fun s => s.readerOn && s.parsing != .done)
+      ((fun s => { s with readerOn := false, bytesRead := true, isRetriable := false }) ;; throwNow)
+  | .space n => whenOp (fun s => s.outSt == .isOpen)
+      (takeOut n ;;
+       cond (fun s => s.sending == .virgin) echoMore
+         (cond (fun s => s.sending == .adapted) parseMoreBody (must (fun s => s.sending == .undecided))))
+  | .consumerAbort => whenOp (fun s => s.outSt == .isOpen) swanSong
+  | .timeout => whenOp (fun s => s.haveConn && (s.readerOn || s.writerBusy)) ((fun s => { s with haveConn := false, readerOn := false }) ;; throwNow)
+  | .closed => whenOp (fun s => s.haveConn) ((fun s => { s with haveConn := false }) ;; swanSong)
+  | .initiatorAbort => whenOp (fun s => s.answer == .none) ((fun s => { s with answer := .aborted }) ;; swanSong)
 
 /-- one event: ignored once the job is gone -/
 def step (s : St) (e : Ev) : St := if s.stopped then s else finish (handler e s)
